@@ -677,10 +677,10 @@ def gen_queries(rng, net, b, heavy=False, nonpos=False):
         qs.append("S:%d:%d" % (a, bb))
         qs.append("S:%d:%d" % (bb, a))
         e = net.edges[(a, bb)]
-        if e.cost > 0 and (robust or True):
+        if e.cost > 0 and not net.dup_pairs:
             for _ in range(2):
                 d = rng.choice([F(0), e.cost, e.cpc / 2, e.cpc * F(3, 2), e.cost - e.cpc / 2, e.cost * F(rng.randint(0, 8), 8)])
-                if exact_in_double(d) and (exact_in_double(e.cpc) or abs((d % e.cpc) / e.cpc - F(1, 2)) > F(1, 1000)):
+                if 0 <= d <= e.cost and exact_in_double(d) and (exact_in_double(e.cpc) or abs((d % e.cpc) / e.cpc - F(1, 2)) > F(1, 1000)):
                     qs.append("C:%d:%d:%s" % (rng.choice([(a, bb), (bb, a)]) + (fmt(d),)))
     allnodes = sorted(net.adj)
     if allnodes:
